@@ -2195,7 +2195,7 @@ class InstRWInfoTable extends core.Task {
               break;
           }
 
-          if (op.zext)
+          if (op.zext && op.isReg())
             d.flags.ZExt = true;
 
           if (op.regIndexRel)
